@@ -342,7 +342,12 @@ fn store_sweep() {
     let (p, _w) = mk_policy(any_tinylfu(1, 6), slfu_from([if resident { Some((k, charge)) } else { None }, None, None], COST_MAX), Arc::new(mrec::make(false)));
     let p = Arc::new(p);
     #[cfg(kani)]
-    crate::ttl::verif_harness::emrec::set(hand_out, lk, lc);
+    {
+        crate::ttl::verif_harness::emrec::set(hand_out, lk, lc);
+        // under Kani the policy's cost / remove are recorders (the policy's own bookkeeping is
+        // decided by the SampledLFU lemmas); natively the real policy is used
+        crate::policy::verif_harness::psync::polrec::reset(charge);
+    }
     let t = clock::advance_nd(6);
     let out = s.try_cleanup(p.clone());
     vassert!(out.is_ok(), "cleanup does not fail");
@@ -354,9 +359,16 @@ fn store_sweep() {
         vassert!(removed == (out.len() == 1), "every removed entry is reported exactly once");
         if removed {
             vassert!(out[0].val == Some(e.val) && out[0].index == k && out[0].cost == charge, "a reclaimed entry is reported with its value and charged cost");
-            vassert!(!p.contains(&k), "a reclaimed entry is no longer charged");
-        } else {
-            vassert!(p.contains(&k), "an entry that stays resident stays charged");
+        }
+        #[cfg(kani)]
+        unsafe {
+            use crate::policy::verif_harness::psync::polrec;
+            vassert!(polrec::REMOVES == removed as usize, "the sweep un-charges exactly the entries it removes");
+            vassert!(!removed || polrec::REMOVED[0] == k, "the un-charged key is the removed key");
+        }
+        #[cfg(not(kani))]
+        {
+            vassert!(removed != p.contains(&k), "the sweep un-charges exactly the entries it removes");
         }
         if hand_out && lk == k && (lc == 0 || lc == e.conflict) && elapsed {
             vassert!(removed, "an elapsed entry handed out by the expiry index is reclaimed");
@@ -384,9 +396,97 @@ harness! {
      kani::stub(parking_lot::RawRwLock::unlock_exclusive_slow, stubs::rw_unlock_exclusive_slow),
      kani::stub(crate::metrics::Metrics::add, crate::verif_env::mrec::add),
      kani::stub(crate::metrics::Metrics::is_op, crate::verif_env::mrec::is_op),
-     kani::stub(crate::ttl::ExpirationMap::try_cleanup, crate::ttl::verif_harness::emrec::try_cleanup)]
+     kani::stub(crate::ttl::ExpirationMap::try_cleanup, crate::ttl::verif_harness::emrec::try_cleanup),
+     kani::stub(crate::policy::LFUPolicy::cost, crate::policy::verif_harness::psync::polrec::cost),
+     kani::stub(crate::policy::LFUPolicy::remove, crate::policy::verif_harness::psync::polrec::remove)]
     fn c05_store_sweep() {
         store_sweep();
+    }
+}
+
+#[cfg(all(feature = "sync", feature = "async"))]
+fn store_sweep_async() {
+    use crate::policy::verif_harness::pasync::mk_policy_async as mk_policy;
+    use crate::policy::verif_harness::{any_tinylfu, slfu_from, COST_MAX};
+    use crate::verif_env::mrec;
+    let now = clock::set_nd(1000, th::SECS_MAX);
+    let e = any_ent(now, 2, 4);
+    let k = e.key;
+    let resident = nd::any_bool();
+    // what the expiry index hands out: nothing, or one listing with an arbitrary key and conflict
+    let hand_out = nd::any_bool();
+    let lk = nd::any_u64();
+    let lc = nd::any_u64();
+    // under Kani the index is replaced by the stand-in; natively the listing is really filed, under
+    // a bucket that is due at every later instant
+    #[cfg(kani)]
+    let listing = None;
+    #[cfg(not(kani))]
+    let listing = if hand_out { Some((now.as_secs() as i64, lk, lc)) } else { None };
+    let s = store_from_opt(if resident { Some(e) } else { None }, None, listing, NdValidator::new(Some(true)), false);
+    let charge = nd::any_i64_in(0, COST_MAX);
+    let (p, _w) = mk_policy(any_tinylfu(1, 6), slfu_from([if resident { Some((k, charge)) } else { None }, None, None], COST_MAX), Arc::new(mrec::make(false)));
+    let p = Arc::new(p);
+    #[cfg(kani)]
+    {
+        crate::ttl::verif_harness::emrec::set(hand_out, lk, lc);
+        // under Kani the policy's cost / remove are recorders (the policy's own bookkeeping is
+        // decided by the SampledLFU lemmas); natively the real policy is used
+        crate::policy::verif_harness::psync::polrec::reset(charge);
+    }
+    let t = clock::advance_nd(6);
+    let out = s.try_cleanup_async(p.clone());
+    vassert!(out.is_ok(), "cleanup does not fail");
+    let out = out.unwrap();
+    if resident {
+        let removed = raw(&s, k).is_none();
+        let elapsed = !e.exp.is_zero() && t >= deadline(&e.exp);
+        vassert!(!removed || elapsed, "cleanup never removes an entry whose TTL has not elapsed, and never one without TTL, whatever the expiry index hands out");
+        vassert!(removed == (out.len() == 1), "every removed entry is reported exactly once");
+        if removed {
+            vassert!(out[0].val == Some(e.val) && out[0].index == k && out[0].cost == charge, "a reclaimed entry is reported with its value and charged cost");
+        }
+        #[cfg(kani)]
+        unsafe {
+            use crate::policy::verif_harness::psync::polrec;
+            vassert!(polrec::REMOVES == removed as usize, "the sweep un-charges exactly the entries it removes");
+            vassert!(!removed || polrec::REMOVED[0] == k, "the un-charged key is the removed key");
+        }
+        #[cfg(not(kani))]
+        {
+            vassert!(removed != p.contains(&k), "the sweep un-charges exactly the entries it removes");
+        }
+        if hand_out && lk == k && (lc == 0 || lc == e.conflict) && elapsed {
+            vassert!(removed, "an elapsed entry handed out by the expiry index is reclaimed");
+        }
+        vcover!(removed, "entry reclaimed");
+        vcover!(!removed && hand_out && lk == k && e.exp.is_zero(), "a listing of an entry without TTL is handed out");
+        vcover!(!removed && hand_out && lk == k && !e.exp.is_zero(), "a listing of an entry whose TTL has not elapsed is handed out");
+    } else {
+        vassert!(out.len() == 0, "nothing is reported for keys that are not resident");
+        vcover!(hand_out, "stale listing of an absent key");
+    }
+    std::mem::forget(out);
+    std::mem::forget(s);
+}
+
+#[cfg(all(feature = "sync", feature = "async"))]
+harness! {
+    [kani::unwind(5),
+     kani::stub(std::sync::Arc::drop_slow, stubs::arc_drop_slow),
+     kani::stub(parking_lot::RawMutex::lock_slow, stubs::mutex_lock_slow),
+     kani::stub(parking_lot::RawMutex::unlock_slow, stubs::mutex_unlock_slow),
+     kani::stub(parking_lot::RawRwLock::lock_shared_slow, stubs::rw_lock_shared_slow),
+     kani::stub(parking_lot::RawRwLock::lock_exclusive_slow, stubs::rw_lock_exclusive_slow),
+     kani::stub(parking_lot::RawRwLock::unlock_shared_slow, stubs::rw_unlock_shared_slow),
+     kani::stub(parking_lot::RawRwLock::unlock_exclusive_slow, stubs::rw_unlock_exclusive_slow),
+     kani::stub(crate::metrics::Metrics::add, crate::verif_env::mrec::add),
+     kani::stub(crate::metrics::Metrics::is_op, crate::verif_env::mrec::is_op),
+     kani::stub(crate::ttl::ExpirationMap::try_cleanup, crate::ttl::verif_harness::emrec::try_cleanup),
+     kani::stub(crate::policy::AsyncLFUPolicy::cost, crate::policy::verif_harness::pasync::rec_cost),
+     kani::stub(crate::policy::AsyncLFUPolicy::remove, crate::policy::verif_harness::pasync::rec_remove)]
+    fn c05_store_sweep_async() {
+        store_sweep_async();
     }
 }
 
@@ -460,5 +560,40 @@ pub(crate) mod storerec {
             let v: V = std::mem::transmute_copy::<u64, V>(&tag);
             Ok(Some(StoreItem { key: *key, conflict: nd::any_u64(), value: SharedValue::new(v), expiration: th::time_at(clock::get(), Duration::ZERO) }))
         }
+    }
+}
+
+harness! {
+    [kani::unwind(5)]
+    fn probe_iter() {
+        let mut m: crate::verif_env::Map<u64, u64> = crate::verif_env::hm_from([None, None, None]);
+        if nd::any_bool() {
+            m.insert(nd::any_u64(), 7);
+        }
+        let mut calls = 0u32;
+        let v: Vec<u64> = m
+            .iter()
+            .filter_map(|(k, _)| {
+                calls += 1;
+                probe_heavy(*k)
+            })
+            .collect();
+        vassert!(calls <= 1, "closure called at most once");
+        vcover!(v.len() == 1, "one");
+        std::mem::forget(v);
+    }
+}
+#[inline(never)]
+fn probe_heavy(k: u64) -> Option<u64> {
+    let mut i = 0;
+    let mut acc = 0u64;
+    while i < 2 {
+        acc = acc.wrapping_add(k);
+        i += 1;
+    }
+    if k > 5 && acc != 1 {
+        Some(k)
+    } else {
+        None
     }
 }
